@@ -38,7 +38,8 @@ def cases(tier):
                         out.append((role, marker, tuple(ch), tuple(cb), tuple(et)))
     # the same rule in software contexts where the report has nothing else to say: unrecognised software (no recommendations at all)
     # and a configuration without any other finding (post-quantum kex, AEAD cipher, encrypt-then-MAC MACs only)
-    for ctx in ('unrecognised', 'flawless', 'dropbear', 'libssh', 'tinyssh', 'old-openssh'):
+    # ... and under identification strings announcing protocol 1.99 (an SSH-2 peer that also speaks SSH-1: the rule is about its SSH-2 offer)
+    for ctx in ('unrecognised', 'flawless', 'dropbear', 'libssh', 'tinyssh', 'old-openssh', 'proto-1.99', 'proto-1.99-unrecognised', 'comment'):
         for role in ('server', 'client'):
             for marker in ('none', 'own', 'other', 'both'):
                 for ch in ([], ['chacha20-poly1305@openssh.com']):
@@ -95,7 +96,8 @@ def cases(tier):
     return out
 
 
-CTX_BANNER = {'dropbear': b'SSH-2.0-dropbear_2022.83', 'libssh': b'SSH-2.0-libssh_0.10.5', 'tinyssh': b'SSH-2.0-tinyssh_20230101', 'old-openssh': b'SSH-2.0-OpenSSH_7.4',
+CTX_BANNER = {'proto-1.99': b'SSH-1.99-OpenSSH_9.6', 'proto-1.99-unrecognised': b'SSH-1.99-AcmeSSH_1.0', 'comment': b'SSH-2.0-OpenSSH_9.6p1 Debian-3 SSH-1.5-compat',
+              'dropbear': b'SSH-2.0-dropbear_2022.83', 'libssh': b'SSH-2.0-libssh_0.10.5', 'tinyssh': b'SSH-2.0-tinyssh_20230101', 'old-openssh': b'SSH-2.0-OpenSSH_7.4',
               'default': b'SSH-2.0-OpenSSH_9.6', 'mixed': b'SSH-2.0-OpenSSH_9.6', 'nearmiss': b'SSH-2.0-OpenSSH_9.6', 'hangup': b'SSH-2.0-OpenSSH_9.6', 'unrecognised': b'SSH-2.0-AcmeSSH_1.0', 'flawless': b'SSH-2.0-OpenSSH_9.6'}
 
 
